@@ -33,3 +33,16 @@ pub fn ascii_from_utf8(v: &[u8]) -> Result<&str, core::str::Utf8Error> {
 }
 /// View ASCII bytes as &str (harness helper; asserts ASCII).
 pub fn ascii_str(v: &[u8]) -> &str { ascii_from_utf8(v).unwrap() }
+
+/// Model of `std_detect::detect::cache::test`: the CPU's feature set is an arbitrary but
+/// fixed 128-bit mask chosen by the harness (slots 62/63), so a dispatcher obligation
+/// covers every detection outcome.
+pub fn model_detect_test(bit: u32) -> bool {
+    let b = bit & 127;
+    if b < 64 { (rec_get(62) >> b) & 1 == 1 } else { (rec_get(63) >> (b - 64)) & 1 == 1 }
+}
+
+/// Stubs for the global allocator entry points: a core operation that reaches one of
+/// them fails its obligation ("core operations never allocate").
+pub unsafe fn no_alloc(_l: core::alloc::Layout) -> *mut u8 { panic!("heap allocation reached") }
+pub unsafe fn no_realloc(_p: *mut u8, _l: core::alloc::Layout, _n: usize) -> *mut u8 { panic!("heap reallocation reached") }
